@@ -545,6 +545,18 @@ impl tracing::Subscriber for Capture {
                 .map(|(_, val)| val.clone())
         };
         if BT_ACTIVE.load(std::sync::atomic::Ordering::SeqCst) {
+            // a "forwarding layer": while one is installed, every dead-letter event makes the subscriber itself send
+            // something (to an actor that has ended, so that send fails and is a dead letter in its own right)
+            if get("dead_letter.reason").is_some() {
+                let fwd = FORWARD.lock().unwrap_or_else(|e| e.into_inner()).clone();
+                if let Some(f) = fwd {
+                    let nested = FORWARDING.with(|x| x.replace(true));
+                    if !nested {
+                        f();
+                        FORWARDING.with(|x| x.set(false));
+                    }
+                }
+            }
             // bthreads: events arrive from many OS threads, they go to one process-wide sink
             let mut sink = BT_SINK.lock().unwrap_or_else(|e| e.into_inner());
             if let Some(reason) = get("dead_letter.reason") {
@@ -603,6 +615,11 @@ pub struct BtSink {
     pub tell_results: Vec<u32>,
 }
 
+/// see Capture::event
+pub static FORWARD: Mutex<Option<std::sync::Arc<dyn Fn() + Send + Sync>>> = Mutex::new(None);
+thread_local! {
+    static FORWARDING: std::cell::Cell<bool> = const { std::cell::Cell::new(false) };
+}
 pub static TRACE_OFF: std::sync::atomic::AtomicBool = std::sync::atomic::AtomicBool::new(false);
 pub static BT_ACTIVE: std::sync::atomic::AtomicBool = std::sync::atomic::AtomicBool::new(false);
 pub static BT_SINK: Mutex<BtSink> = Mutex::new(BtSink { dls: Vec::new(), logs: Vec::new(), tell_results: Vec::new() });
